@@ -1143,3 +1143,49 @@ Proof.
     destruct shs as [|m [|n [|x y]]]; try reflexivity.
     destruct (Nat.eqb m n); [|reflexivity]. rewrite Ho. reflexivity.
 Qed.
+
+(* ------------------------------------------------------------------ the negative-powers switch *)
+Lemma run_no_with : forall p f, no_with p = true ->
+  run f p = run_prev f p /\ snd (run f p) = f /\ Forall (eq f) (fst (run f p)).
+Proof.
+  induction p as [|p IHp q IHq|v body IH]; intros f H; simpl in *.
+  - repeat split. constructor; auto.
+  - apply andb_true_iff in H. destruct H as [Hp Hq].
+    destruct (IHp f Hp) as [E1 [F1 O1]].
+    destruct (run f p) as [o1 f1] eqn:R1. destruct (run_prev f p) as [o1' f1'] eqn:R1'.
+    injection E1 as <- <-. simpl in F1. subst f1.
+    destruct (IHq f Hq) as [E2 [F2 O2]].
+    destruct (run f q) as [o2 f2] eqn:R2. destruct (run_prev f q) as [o2' f2'] eqn:R2'.
+    injection E2 as <- <-. simpl in *. subst f2.
+    repeat split. apply Forall_app. split; assumption.
+  - discriminate.
+Qed.
+
+(* restore-to-default and restore-to-previous agree on every program without a `with` inside a `with`, started at the default;
+   the flag is back at the default afterwards *)
+Lemma switch_teardown_irrelevant_without_nesting : forall p, nesting_free p = true ->
+  run default_negpow p = run_prev default_negpow p /\ snd (run default_negpow p) = default_negpow.
+Proof.
+  induction p as [|p IHp q IHq|v body IH]; intro H; simpl in *.
+  - split; reflexivity.
+  - apply andb_true_iff in H. destruct H as [Hp Hq].
+    destruct (IHp Hp) as [E1 F1].
+    destruct (run default_negpow p) as [o1 f1] eqn:R1. destruct (run_prev default_negpow p) as [o1' f1'] eqn:R1'.
+    injection E1 as <- <-. simpl in F1. subst f1.
+    destruct (IHq Hq) as [E2 F2].
+    destruct (run default_negpow q) as [o2 f2] eqn:R2. destruct (run_prev default_negpow q) as [o2' f2'] eqn:R2'.
+    injection E2 as <- <-. simpl in *. subst f2. split; reflexivity.
+  - destruct (run_no_with body v H) as [E _]. rewrite E. split; reflexivity.
+Qed.
+
+(* while a `with value` block whose body opens no further block runs, every read of the flag sees `value` *)
+Lemma switch_in_force : forall v body, no_with body = true -> Forall (eq v) (fst (run default_negpow (With v body))).
+Proof. intros v body H. simpl. apply (run_no_with body v H). Qed.
+
+(* under nesting the two teardowns differ: an inner block (of any value) re-enables negative powers for the rest of an outer
+   disabling block -- exactly what a grader's check_response would suffer if code it calls opened its own block *)
+Lemma c14_ex_nested_switch :
+  fst (run default_negpow (With false (Seq (With true Obs) Obs))) = [true; true] /\
+  fst (run_prev default_negpow (With false (Seq (With true Obs) Obs))) = [true; false] /\
+  fst (run default_negpow (With false (Seq (With false Obs) Obs))) = [false; true].
+Proof. repeat split; reflexivity. Qed.
